@@ -203,9 +203,103 @@ fn op_c15(a: &[&str]) -> String {
     res.unwrap_or_else(|| "panic".to_string())
 }
 
+/// tallies of a full enumeration: per player, how often flagged with exactly k winners (k = 1..n); plus pot check
+fn tallies(board: &[Option<espada::card::Card>; 5], players: &Vec<HandRange>) -> (Vec<Vec<u64>>, bool, u64) {
+    let n = players.len();
+    let mut t = vec![vec![0u64; n + 1]; n];
+    let mut pot_ok = true;
+    let mut count = 0u64;
+    for sd in espada::evaluator::FlopExhaustiveEvaluator::new(board, players) {
+        count += 1;
+        let k = sd.winner_len() as usize;
+        let flagged = sd.players().iter().filter(|p| p.is_winner()).count();
+        if n > 0 && (k < 1 || flagged != k) {
+            pot_ok = false;
+        }
+        for (i, p) in sd.players().iter().enumerate() {
+            if p.is_winner() {
+                t[i][k] += 1;
+            }
+        }
+    }
+    (t, pot_ok, count)
+}
+
+fn fmt_tallies(t: &Vec<Vec<u64>>) -> String {
+    if t.is_empty() {
+        return "-".to_string();
+    }
+    t.iter().map(|row| row[1..].iter().map(|x| x.to_string()).collect::<Vec<_>>().join(",")).collect::<Vec<_>>().join(";")
+}
+
+/// c11 <seed> <iter args> : tallies of the input, of suit-relabelled inputs and of player-permuted inputs
+fn op_c11(a: &[&str]) -> String {
+    use crate::ops2::parse_iter;
+    let seed: u64 = a[0].parse().unwrap();
+    let req = parse_iter(&a[1..]);
+    let res = guarded(|| {
+        let base: Vec<HandRange> = req.ranges.iter().map(|es| es.iter().cloned().collect()).collect();
+        let (t0, pot, n0) = tallies(&req.board, &base);
+        let mut rng = Rng(seed);
+        let mut suits_ok = true;
+        // suit permutations: all 24 when the seed is even, three seeded ones otherwise
+        let mut perms: Vec<[usize; 4]> = vec![];
+        let mut idx = [0usize, 1, 2, 3];
+        fn heap(k: usize, a: &mut [usize; 4], out: &mut Vec<[usize; 4]>) {
+            if k == 1 {
+                out.push(*a);
+                return;
+            }
+            for i in 0..k {
+                heap(k - 1, a, out);
+                if k % 2 == 0 { a.swap(i, k - 1) } else { a.swap(0, k - 1) }
+            }
+        }
+        heap(4, &mut idx, &mut perms);
+        if seed % 2 == 1 {
+            rng.shuffle(&mut perms);
+            perms.truncate(3);
+        }
+        for sg in &perms {
+            let map_card = |c: espada::card::Card| card_of((card_code(&c) / 4) * 4 + sg[card_code(&c) % 4]);
+            let mut board = req.board;
+            for b in board.iter_mut() {
+                if let Some(c) = b {
+                    *b = Some(map_card(*c));
+                }
+            }
+            let players: Vec<HandRange> = req.ranges.iter().map(|es| es.iter().map(|(cp, w)| (CardPair::new(map_card(cp[0]), map_card(cp[1])), *w)).collect()).collect();
+            let (t, p, n) = tallies(&board, &players);
+            if t != t0 || !p || n != n0 {
+                suits_ok = false;
+            }
+        }
+        // player orders: reversed and two seeded shuffles
+        let mut players_ok = true;
+        let np = base.len();
+        for round in 0..3 {
+            let mut order: Vec<usize> = (0..np).collect();
+            if round == 0 { order.reverse() } else { rng.shuffle(&mut order) }
+            let players: Vec<HandRange> = order.iter().map(|i| base[*i].clone()).collect();
+            let (t, _, n) = tallies(&req.board, &players);
+            for (newpos, old) in order.iter().enumerate() {
+                if t[newpos] != t0[*old] {
+                    players_ok = false;
+                }
+            }
+            if n != n0 {
+                players_ok = false;
+            }
+        }
+        format!("ok suits={} players={} pot={} n={} t={}", suits_ok as u8, players_ok as u8, pot as u8, n0, fmt_tallies(&t0))
+    });
+    res.unwrap_or_else(|| "panic".to_string())
+}
+
 pub fn run_op3(op: &str, a: &[&str]) -> Option<String> {
     match op {
         "c15" => Some(op_c15(a)),
+        "c11" => Some(op_c11(a)),
         // scopes <n> : the example's work splitter
         "scopes" => {
             let n: u32 = a[0].parse().unwrap();
